@@ -1,5 +1,5 @@
-(* C15 - closed form of the builder and of all six constructor calls of the suite (towards a
-   checker-on-model theorem; the final step - ok_C15 on the closed form - is not done). *)
+(* C15 - closed form of the builder and of all six constructor calls of the suite and the
+   checker-on-model theorem C15_model_ok_lemma. *)
 From VM Require Import Prelude.MachInt Prelude.Outcome Prelude.Tok Impl.MmapBuild Impl.Xen Spec.C15 Suite.C15 Proofs.C15.
 
 Definition mmap_ev (q : req) (ok : bool) : ev :=
@@ -123,3 +123,197 @@ Proof.
     cbn [q_size q_raw q_file q_prot q_flags]; repeat split; try reflexivity.
 Qed.
 
+
+(* ------------------------------------------------------------------ the checker, read semantically *)
+Lemma ok_err c o : o_res o <> 0 -> In (o_res o) (reasons c) -> o_d2 o = 0 -> ok_C15 c o = true.
+Proof.
+  intros R I D. unfold ok_C15. destruct (reasons c) as [|r rs] eqn:E; [destruct I|].
+  apply mem_iff in I. rewrite I, D. destruct (N.eqb_spec (o_res o) 0); [contradiction|]. reflexivity.
+Qed.
+
+Lemma ok_refused c o : c_raw c = None -> o_probe o = 0 -> o_res o = 5 -> o_d2 o = 0 -> ok_C15 c o = true.
+Proof.
+  intros Hr P R D. unfold ok_C15. rewrite Hr, P, R, D.
+  destruct (reasons c); [reflexivity|]. cbn [negb]. rewrite orb_true_r. reflexivity.
+Qed.
+
+Lemma ok_accept c o : reasons c = [] -> (c_raw c <> None \/ o_probe o <> 0) ->
+  o_res o = 0 -> o_size o = c_size c ->
+  (explicit_flags c = true -> o_prot o = c_prot c /\ o_flags o = c_flags c) ->
+  match c_file c with
+  | Some (_, s) => o_hasfile o = true /\ o_start o = s /\ o_samefd o = true
+  | None => o_hasfile o = false end ->
+  ((o_coh1 o = 1 /\ o_coh2 o = 1) \/ o_coh1 o = 2) ->
+  ok_C15 c o = true.
+Proof.
+  intros E P R S F Fi C. unfold ok_C15. rewrite E, R, S, !N.eqb_refl.
+  assert (OS : (match c_raw c with Some _ => false | None => o_probe o =? 0 end) = false).
+  { destruct (c_raw c); [reflexivity|]. destruct P as [P|P]; [contradiction|].
+    destruct (N.eqb_spec (o_probe o) 0); [contradiction|reflexivity]. }
+  rewrite OS. cbn [andb].
+  assert (X1 : (if explicit_flags c then (o_prot o =? c_prot c) && (o_flags o =? c_flags c) else true) = true).
+  { destruct (explicit_flags c); [|reflexivity]. destruct (F eq_refl) as [-> ->]. rewrite !N.eqb_refl. reflexivity. }
+  rewrite X1. cbn [andb].
+  assert (X2 : (match c_file c with
+                | Some (_, start) => o_hasfile o && (o_start o =? start) && o_samefd o
+                | None => negb (o_hasfile o) end) = true).
+  { destruct (c_file c) as [[fl s]|]; [destruct Fi as [-> [-> ->]]; rewrite N.eqb_refl|rewrite Fi]; reflexivity. }
+  rewrite X2. cbn [andb].
+  destruct C as [[-> ->] | ->].
+  - destruct (c_cohere c && o_hasfile o && hasbit (o_flags o) 1 && negb (hasbit (o_flags o) 32) && negb (1 =? 2)); reflexivity.
+  - rewrite N.eqb_refl. cbn [negb]. rewrite andb_false_r. reflexivity.
+Qed.
+
+Definition probe_wf (c : case15) (probe : N) : Prop :=
+  probe = 0 \/ probe = 1 \/
+  (probe = 2 /\ (c_raw c <> None \/ (explicit_flags c = true /\ hasbit (c_flags c) 16 = true))).
+
+Lemma foot_cancel a : Z.to_N (Z.of_N a + (0 - Z.of_N a)) = 0.
+Proof. replace (Z.of_N a + (0 - Z.of_N a))%Z with 0%Z by lia. reflexivity. Qed.
+
+Lemma base_reason c : forall b, c_base c = Some b -> W64 <= b + c_size c -> In 6 (reasons c).
+Proof.
+  intros b Hb L. unfold reasons. rewrite Hb. apply in_or_app. right.
+  destruct (N.leb_spec W64 (b + c_size c)); [left; reflexivity|lia].
+Qed.
+
+Lemma hasbit_16_testbit f : hasbit f 16 = negb (negb (N.testbit f 4)).
+Proof.
+  unfold hasbit. change 16 with (2 ^ 4).
+  destruct (N.eqb_spec (N.land f (2 ^ 4)) 0) as [E|E].
+  - apply land_pow2_zero in E. rewrite E. reflexivity.
+  - destruct (N.testbit f 4) eqn:T; [reflexivity|]. apply land_pow2_zero in T. contradiction.
+Qed.
+
+Lemma C15_model_ok_lemma : forall c probe k, wf15 c -> c_page c = 2 ^ k -> probe_wf c probe ->
+  ok_C15 c (run_C15 c probe) = true.
+Proof.
+  intros c probe k W Hp PW.
+  destruct (q_of_facts c W) as [F1 [F2 [F3 F4]]].
+  unfold run_C15. rewrite (construct_cases c (os_of c probe) k W Hp).
+  unfold build_result, post, request_region, mmap_ev. rewrite F1, F2, F3.
+  unfold os_of. cbn [os_page os_filesize os_mmap_ok].
+  remember (q_prot (q_of c)) as qp. remember (q_flags (q_of c)) as qf.
+  assert (EX : explicit_flags c = true -> qp = c_prot c /\ qf = c_flags c).
+  { intros E. rewrite E in F4. exact F4. }
+  unfold probe_wf in PW.
+  destruct (c_raw c) as [a|] eqn:Hr.
+  - (* external pointer *)
+    destruct (N.eqb_spec (a mod c_page c) 0) as [A|A].
+    + assert (RS : match c_base c with Some b => W64 <= b + c_size c | None => False end \/ reasons c = []).
+      { unfold reasons. rewrite Hr. destruct (N.eqb_spec (a mod c_page c) 0); [|contradiction].
+        destruct (c_base c) as [b|]; [|right; reflexivity].
+        destruct (N.leb_spec W64 (b + c_size c)); [left; assumption|right; reflexivity]. }
+      destruct (c_base c) as [b|] eqn:Hb; cbn [g_size].
+      * destruct (N.leb_spec W64 (b + c_size c)) as [B|B].
+        -- apply ok_err.
+           ++ destruct (c_file c) as [[? ?]|]; cbn; discriminate.
+           ++ destruct (c_file c) as [[? ?]|]; cbn [o_res obs_err berr_code]; apply (base_reason c b Hb B).
+           ++ destruct (c_file c) as [[? ?]|]; reflexivity.
+        -- destruct RS as [RS|RS]; [lia|].
+           apply ok_accept; cbn [o_res o_size o_prot o_flags o_hasfile o_start o_samefd o_coh1 o_coh2 g_size g_prot g_flags g_file g_owned g_addr]; auto.
+           ++ left. rewrite Hr. discriminate.
+           ++ unfold fstart. destruct (c_file c) as [[? ?]|]; auto.
+           ++ match goal with |- context [coh_tested ?c ?g] => destruct (coh_tested c g) end; auto.
+      * destruct RS as [[]|RS].
+        apply ok_accept; cbn [o_res o_size o_prot o_flags o_hasfile o_start o_samefd o_coh1 o_coh2 g_size g_prot g_flags g_file g_owned g_addr]; auto.
+        -- left. rewrite Hr. discriminate.
+        -- unfold fstart. destruct (c_file c) as [[? ?]|]; auto.
+        -- match goal with |- context [coh_tested ?c ?g] => destruct (coh_tested c g) end; auto.
+    + apply ok_err.
+      * destruct (c_file c) as [[? ?]|]; cbn; discriminate.
+      * destruct (c_file c) as [[? ?]|]; cbn [o_res obs_err berr_code]; unfold reasons; rewrite Hr;
+          (destruct (N.eqb_spec (a mod c_page c) 0); [contradiction|]); apply in_or_app; left; left; reflexivity.
+      * destruct (c_file c) as [[? ?]|]; reflexivity.
+  - (* the library maps *)
+    assert (FX : hasbit qf 16 = (explicit_flags c && hasbit (c_flags c) 16)).
+    { destruct (explicit_flags c) eqn:E.
+      - destruct (EX eq_refl) as [_ <-]. reflexivity.
+      - rewrite F4. reflexivity. }
+    destruct (hasbit qf 16) eqn:HF.
+    + (* MAP_FIXED *)
+      apply ok_err.
+      * destruct (c_file c) as [[? ?]|]; cbn; discriminate.
+      * assert (I : In 3 (reasons c)).
+        { unfold reasons. rewrite Hr, <- FX. apply in_or_app. left. apply in_or_app. left. left. reflexivity. }
+        destruct (c_file c) as [[? ?]|]; exact I.
+      * destruct (c_file c) as [[? ?]|]; reflexivity.
+    + (* the remaining reasons: file range, guest base *)
+      assert (RS : reasons c =
+                   match c_file c with
+                   | Some (flen, start) =>
+                       if W64 <=? start + c_size c then [1] else if flen <? start + c_size c then [4] else []
+                   | None => [] end ++
+                   match c_base c with
+                   | Some b => if W64 <=? b + c_size c then [6] else []
+                   | None => [] end).
+      { unfold reasons. rewrite Hr, <- FX. reflexivity. }
+      assert (PR : (probe =? 1) = false -> probe = 0).
+      { intros P. destruct PW as [->|[->|[-> [X|[X Y]]]]]; try reflexivity; try discriminate.
+        - contradiction.
+        - rewrite X, Y in FX. discriminate. }
+      (* what happens once the mmap has been granted: g is the requested region, l ends with the mmap *)
+      assert (AFTER : forall l0,
+        foot (c_page c) l0 = 0%Z -> reasons c = match c_base c with
+                                                 | Some b => if W64 <=? b + c_size c then [6] else []
+                                                 | None => [] end ->
+        probe = 1 ->
+        let g := {| g_addr := None; g_size := c_size c; g_prot := qp; g_flags := qf; g_file := fstart c; g_owned := true |} in
+        let l := l0 ++ [EvMmap (c_size c) qp qf (match fstart c with Some _ => true | None => false end)
+                               (match fstart c with Some s => s | None => 0 end) true] in
+        ok_C15 c
+          (let '(r, l') := match c_base c with
+                           | Some b => if W64 <=? b + g_size g then (Err InvalidGuestRegion, l ++ drop_region g)
+                                       else (Ok (g, Some b), l)
+                           | None => (Ok (g, None), l) end in
+           let pos := match c_file c with Some _ => if has_rewind l' then 0 else 7 | None => 0 end in
+           match r with
+           | Err e => obs_err probe (berr_code e) pos (Z.to_N (foot (c_page c) l'))
+           | Ok (g0, _) =>
+               let t := coh_tested c g0 in
+               {| o_probe := probe; o_res := 0; o_size := g_size g0; o_prot := g_prot g0; o_flags := g_flags g0;
+                  o_hasfile := match g_file g0 with Some _ => true | None => false end;
+                  o_start := match g_file g0 with Some s => s | None => 0 end;
+                  o_samefd := match g_file g0 with Some _ => true | None => false end;
+                  o_owned := g_owned g0;
+                  o_ptr := match g_addr g0 with Some a => a | None => 0 end;
+                  o_pos := pos;
+                  o_d1 := Z.to_N (foot (c_page c) l');
+                  o_d2 := Z.to_N (foot (c_page c) (l' ++ drop_region g0));
+                  o_coh1 := if t then 1 else 2; o_coh2 := if t then 1 else 2 |}
+           end) = true).
+      { intros l0 FT RB P1 g l. subst g l. cbn [g_size].
+        assert (FA : forall a b, foot (c_page c) (a ++ b) = (foot (c_page c) a + foot (c_page c) b)%Z).
+        { intros a b. induction a as [|e a IH]; cbn [app foot]; [reflexivity|].
+          destruct e as [| |s p f fi off [|]|s|cc ok|gg cc i ok|i cc]; rewrite ?IH; lia. }
+        destruct (c_base c) as [b|] eqn:Hb.
+        - destruct (N.leb_spec W64 (b + c_size c)) as [B|B].
+          + apply ok_err.
+            * cbn. discriminate.
+            * cbn [o_res obs_err berr_code]. apply (base_reason c b Hb B).
+            * cbn [o_d2 obs_err drop_region g_owned g_size]. rewrite !FA, FT. cbn [foot].
+              replace (0 + (Z.of_N (round_up (c_size c) (c_page c)) + 0) + (0 - Z.of_N (round_up (c_size c) (c_page c))))%Z with 0%Z by lia.
+              reflexivity.
+          + apply ok_accept; cbn [o_res o_size o_prot o_flags o_hasfile o_start o_samefd o_coh1 o_coh2 o_probe g_size g_prot g_flags g_file g_owned g_addr]; auto.
+            * right. rewrite P1. discriminate.
+            * unfold fstart. destruct (c_file c) as [[? ?]|]; auto.
+            * match goal with |- context [coh_tested ?c ?g] => destruct (coh_tested c g) end; auto.
+        - apply ok_accept; cbn [o_res o_size o_prot o_flags o_hasfile o_start o_samefd o_coh1 o_coh2 o_probe g_size g_prot g_flags g_file g_owned g_addr]; auto.
+          + right. rewrite P1. discriminate.
+          + unfold fstart. destruct (c_file c) as [[? ?]|]; auto.
+          + match goal with |- context [coh_tested ?c ?g] => destruct (coh_tested c g) end; auto. }
+      unfold fstart in *.
+      destruct (c_file c) as [[fl s]|] eqn:Hf.
+      * destruct (N.leb_spec W64 (s + c_size c)) as [O|O].
+        -- apply ok_err; [cbn; discriminate| |reflexivity].
+           cbn [o_res obs_err berr_code]. rewrite RS. apply in_or_app. left. left. reflexivity.
+        -- destruct (N.ltb_spec fl (s + c_size c)) as [E|E].
+           ++ apply ok_err; [cbn; discriminate| |reflexivity].
+              cbn [o_res obs_err berr_code]. rewrite RS. apply in_or_app. left. left. reflexivity.
+           ++ destruct (probe =? 1) eqn:P1.
+              ** apply N.eqb_eq in P1. apply (AFTER [EvSeekEnd; EvRewind]); [reflexivity|exact RS|exact P1].
+              ** apply ok_refused; [exact Hr|exact (PR eq_refl)|reflexivity|reflexivity].
+      * destruct (probe =? 1) eqn:P1.
+        -- apply N.eqb_eq in P1. apply (AFTER []); [reflexivity|exact RS|exact P1].
+        -- apply ok_refused; [exact Hr|exact (PR eq_refl)|reflexivity|reflexivity].
+Qed.
